@@ -254,3 +254,17 @@ fn kx_fmt_spec_flags_do_not_change_the_output_all() {
     kani::cover!(which == 2 && x == b'a');
     kani::cover!(which == 7);
 }
+
+// @ob props=C15 tier=quick kind=Kstruct bound="sink of 16 chars; the concrete contents b\"a\\n\"; format specs {:4?} {:.0?}" timeout=900 fns=Debug_for_BytesRef::fmt
+#[kani::proof]
+#[kani::unwind(18)]
+fn kx_fmt_spec_flags_concrete_contents() {
+    // decidable twin of the obligation above: with CONCRETE contents CBMC constant-folds std's
+    // padding machinery, so a change that lets width / precision reach a per-byte `Display` call
+    // (seed C15-5: the symbolic-byte obligation times out on it) is refuted instead of undecided
+    let arr = [b'a', b'\n'];
+    let mut s = Sink { buf: [0; 16], n: 0 };
+    let r = if kani::any() { core::fmt::write(&mut s, format_args!("{:4?}", BytesRef(&arr))) } else { core::fmt::write(&mut s, format_args!("{:.0?}", BytesRef(&arr))) };
+    assert!(r.is_ok());
+    assert!(s.n == 6 && s.buf[0] == b'b' && s.buf[1] == b'"' && s.buf[2] == b'a' && s.buf[3] == b'\\' && s.buf[4] == b'n' && s.buf[5] == b'"');
+}
